@@ -555,6 +555,10 @@ func (b *c07TokenBook) hook(grant string, resp map[string]interface{}) {
 	at, _ := resp["access_token"].(string)
 	rt, _ := resp["refresh_token"].(string)
 	sub, _ := vfJWTClaims(idt)["sub"].(string)
+	if sub == "" { // identity without user-id claim: keyed by its (unique) e-mail
+		e, _ := vfJWTClaims(idt)["email"].(string)
+		sub = "email:" + e
+	}
 	b.mu.Lock()
 	b.m[sub] = c07Tokens{AT: at, IDT: idt, RT: rt}
 	b.mu.Unlock()
@@ -575,6 +579,7 @@ type c07Ident struct {
 	Sub, Email, PU    string
 	Groups            []string
 	GroupsClaimAbsent bool
+	NoSub             bool // the IdP issues no user-id (sub) claim, neither in the ID token nor from the profile endpoint: session.User is empty
 }
 
 func c07CookieIdents() []c07Ident {
@@ -591,6 +596,7 @@ func c07CookieIdents() []c07Ident {
 		{Label: "c-minimal", Class: "groups+pu-empty", Sub: "erin", Email: "erin@example.com", GroupsClaimAbsent: true},
 		{Label: "c-unicode", Class: "unicode", Sub: "zoë-ß", Email: "zoë@exämple.com", PU: "Ålice Ø ☃", Groups: []string{"größe", "日本語", "ünï"}},
 		{Label: "c-manygroups", Class: "groups-multi+empty-element", Sub: "frank", Email: "frank@example.com", PU: "f", Groups: many},
+		{Label: "c-nouser", Class: "user-empty", Sub: "", Email: "alice.nouser@corp.example", PU: "al", Groups: []string{"staff"}, NoSub: true},
 		{Label: "c-colon", Class: "separators-in-values", Sub: "u:colon,comma", Email: "g+tag@example.com", PU: "p:u,x", Groups: []string{"", "only,one"}},
 	}
 }
@@ -666,10 +672,10 @@ func c07BuildSessions(run *vfRun, w *vfWorld, p *vfProxy, cfg *c07Cfg, inst int,
 	var out []*c07Sess
 	base := c07CookieIdents()
 	for k, id := range append(base, c07PrefixIdents(cfg)...) {
-		// quick tier: the standard identity plus a rotating 3 of the other 7 per instance (all of them on the fixed
+		// quick tier: the standard identity plus a rotating 3 of the other 8 per instance (all of them on the fixed
 		// structured configurations); every identity meets every option bucket across the instances. The identities
 		// correlated with this configuration's prefixes are always used.
-		if !run.Env.Thorough() && k > 0 && k < len(base) && !strings.Contains(cfg.Label, "fixed") && (k-1+7-inst%7)%7 >= 3 {
+		if !run.Env.Thorough() && k > 0 && k < len(base) && !strings.Contains(cfg.Label, "fixed") && (k-1+8-inst%8)%8 >= 3 {
 			continue
 		}
 		if k >= len(base) {
@@ -680,16 +686,26 @@ func c07BuildSessions(run *vfRun, w *vfWorld, p *vfProxy, cfg *c07Cfg, inst int,
 		if id.GroupsClaimAbsent {
 			vid.Groups = nil
 		}
+		key := sub
+		if id.NoSub {
+			// "empty claim => no value": the session has an e-mail but NO user; nothing may be derived for the user headers
+			id.Email = fmt.Sprintf("alice.nouser+i%d@corp.example", inst)
+			vid = vfIdentity{Email: id.Email, PreferredUsername: id.PU, Groups: id.Groups, Extra: map[string]interface{}{"sub": nil}, Profile: map[string]interface{}{"email": id.Email}}
+			sub, key = "", "email:"+id.Email
+		}
 		b := vfNewBrowser("")
 		if _, _, err := b.Login(p, vid, "/"); err != nil {
 			run.Inconclusive("login failed: " + id.Label)
 			run.Count("login_failed", 1)
 			continue
 		}
-		tk, ok := book.get(sub)
+		tk, ok := book.get(key)
 		if !ok {
 			run.Inconclusive("no tokens recorded for " + id.Label)
 			continue
+		}
+		if id.NoSub {
+			run.Count("sessions_without_user", 1)
 		}
 		cs := b.Jar.For("proxy.test", "/", false)
 		out = append(out, &c07Sess{Label: id.Label, Source: "cookie", Class: id.Class, HasSession: true, User: sub, Email: id.Email, PU: id.PU, Groups: id.Groups,
@@ -716,6 +732,13 @@ func c07BuildSessions(run *vfRun, w *vfWorld, p *vfProxy, cfg *c07Cfg, inst int,
 	mk("b-full", "all-set", map[string]interface{}{"sub": "svc-full", "email": "svc@example.com", "preferred_username": "svc-pu", "groups": []string{"m1", "m2", "m3"}})
 	mk("b-noemail", "email-from-sub", map[string]interface{}{"sub": "svc-noemail", "groups": []string{"m1"}})
 	mk("b-bare", "groups+pu-empty", map[string]interface{}{"sub": "svc-bare", "email": "bare@example.com"})
+	{ // a bearer token without user-id claim: e-mail only
+		email := fmt.Sprintf("svc.nosub+i%d@corp.example", inst)
+		claims := map[string]interface{}{"email": email, "groups": []string{"m9"}, "iss": w.IdP.Issuer, "aud": "cid", "iat": now.Unix(), "exp": now.Add(2 * time.Hour).Unix()}
+		tok := vfMint(claims, vfMintOpts{})
+		out = append(out, &c07Sess{Label: "b-nosub", Source: "bearer", Class: "user-empty", HasSession: true, Email: email, Groups: []string{"m9"}, AT: tok, IDT: tok, Created: "any", Expires: "one", Authz: "Bearer " + tok})
+		run.Count("sessions_without_user", 1)
+	}
 	if ps := c07CfgPrefixes(cfg); len(ps) > 0 {
 		p1 := ps[0]
 		mk("b-prefix", "values-start-with-configured-prefix", map[string]interface{}{"sub": p1 + "svc", "email": p1 + "svc@example.com", "preferred_username": p1 + p1 + "x", "groups": []string{p1 + "admin", p1, "mid" + p1 + "dle", "tail"}})
@@ -755,7 +778,7 @@ func c07BuildSessions(run *vfRun, w *vfWorld, p *vfProxy, cfg *c07Cfg, inst int,
 // ---------------------------------------------------------------------------------------------------------
 // spoofing
 
-var c07SpoofStyles = []string{"none", "canonical-x1", "lower-x1", "UPPER-x2", "mIxEd-x3", "comma-joined", "case-mix-x3", "as-configured+lookalike", "connection-listed"}
+var c07SpoofStyles = []string{"none", "canonical-x1", "lower-x1", "UPPER-x2", "mIxEd-x3", "comma-joined", "case-mix-x3", "as-configured+lookalike", "connection-listed", "connection-multi-line", "other-hop-by-hop-headers-name-it"}
 
 func c07Case(name, how string) string {
 	switch how {
@@ -798,7 +821,7 @@ func c07Spoof(req *vfReq, style int, names []string, sess *c07Sess, tag string) 
 		client[strings.ToLower(name)] = append(client[strings.ToLower(name)], v)
 		lines++
 	}
-	authzCase := []string{"canonical", "canonical", "lower", "upper", "mixed", "canonical", "lower", "canonical", "canonical"}[style]
+	authzCase := []string{"canonical", "canonical", "lower", "upper", "mixed", "canonical", "lower", "canonical", "canonical", "canonical", "canonical"}[style]
 	if sess.Authz != "" { // the genuine credential comes first: it is the one the proxy reads
 		put(c07Case("Authorization", authzCase), "Authorization", sess.Authz)
 		lines--
@@ -816,9 +839,49 @@ func c07Spoof(req *vfReq, style int, names []string, sess *c07Sess, tag string) 
 		req.H("Connection", strings.Join(listed, ", "))
 		lines++
 	}
+	if style == 9 && len(names) > 0 {
+		// the same declaration spread over 2-3 Connection LINES, the configured names on each position, mixed case, next
+		// to the usual tokens (keep-alive / close / upgrade / TE / an unrelated one)
+		d := int(tag[len(tag)-1])
+		var listed []string
+		for i, name := range names {
+			listed = append(listed, c07Case(name, []string{"configured", "lower", "upper", "mixed", "canonical"}[(i+d)%5]))
+		}
+		half := (len(listed) + 1) / 2
+		all := strings.Join(listed, ", ")
+		var conn []string
+		switch d % 6 {
+		case 0:
+			conn = []string{"keep-alive", all}
+		case 1:
+			conn = []string{"x-unrelated-token", all, "keep-alive"}
+		case 2:
+			conn = []string{strings.Join(listed[:half], ","), "Keep-Alive", strings.Join(listed[half:], " , ")}
+		case 3:
+			conn = []string{"TE", "close", all}
+		case 4:
+			conn = []string{all, all}
+		case 5:
+			conn = []string{"keep-alive, x-unrelated-token", "upgrade, " + all}
+		}
+		for k, c := range conn {
+			if c != "" {
+				req.H([]string{"Connection", "connection", "CONNECTION"}[k%3], c)
+				lines++
+			}
+		}
+	}
+	if style == 10 && len(names) > 0 {
+		// the other hop-by-hop headers name the configured headers: none of them may make a proxy drop anything
+		all := strings.Join(names, ", ")
+		for _, h := range []string{"Keep-Alive", "Proxy-Connection", "TE", "Trailer", "Upgrade"} {
+			req.H(h, all)
+			lines++
+		}
+	}
 	for _, name := range names {
 		switch style {
-		case 0, 8:
+		case 0, 8, 9, 10:
 		case 1:
 			put(c07Case(name, "canonical"), name, val(name))
 		case 2:
@@ -927,11 +990,15 @@ func c07Drive(run *vfRun, w *vfWorld, p *vfProxy, cfg *c07Cfg, inst int, session
 	for si, sess := range sessions {
 		for ei, ep := range endpoints {
 			for style := range c07SpoofStyles {
-				// quick tier: "none" plus a rotating third of the styles per (instance, session, endpoint); every style
+				// quick tier: "none" plus a rotating quarter of the styles per (instance, session, endpoint); every style
 				// meets every session class and endpoint across the instances. thorough: all.
 				// (the auth-only endpoints, where the client's request headers play no role for the response, rotate in both tiers)
 				authEP := ep.Name == "auth-only" || ep.Name == "auth-only-denied"
-				if style != 0 && (!run.Env.Thorough() || authEP) && (style+inst+si+ei)%3 != 0 {
+				rot := 3
+				if !run.Env.Thorough() {
+					rot = 4 // eleven styles: a rotating quarter keeps the quick tier at its previous size
+				}
+				if style != 0 && (!run.Env.Thorough() || authEP) && (style+inst+si+ei)%rot != 0 {
 					continue
 				}
 				caseNo++
@@ -948,7 +1015,16 @@ func c07Drive(run *vfRun, w *vfWorld, p *vfProxy, cfg *c07Cfg, inst int, session
 				client, tokens, nLines := c07Spoof(req, style, spoofNames, sess, tag)
 				control := "control-" + tag
 				req.H("x-vf-CONTROL", control)
-				resp := p.Wire(req)
+				var resp *vfResp
+				if style >= 8 && caseNo%2 == 1 {
+					resp = p.Do(req) // hop-by-hop styles also over the direct driver (no "Connection: close" appended by the client)
+					run.Count("hop_by_hop_requests_direct", 1)
+				} else {
+					resp = p.Wire(req)
+					if style >= 8 {
+						run.Count("hop_by_hop_requests_wire", 1)
+					}
+				}
 				run.Count("requests", 1)
 				run.Count("spoof_lines_sent", int64(nLines))
 				wit := func(side, header string, exp [][]c07Part, obs []string, note string) c07Witness {
@@ -1051,7 +1127,7 @@ func c07Drive(run *vfRun, w *vfWorld, p *vfProxy, cfg *c07Cfg, inst int, session
 						}
 						verdict := c07Judge(exp, obs)
 						if verdict == "" {
-							if style != 8 && cfg.PreferEmail && sess.HasSession && sess.Email == "" && len(h.Vals) == 1 && h.Vals[0].Claim == "email-or-user" && c07Judge(c07Expect(h, nil, cl), obs) == "" {
+							if style < 8 && cfg.PreferEmail && sess.HasSession && sess.Email == "" && len(h.Vals) == 1 && h.Vals[0].Claim == "email-or-user" && c07Judge(c07Expect(h, nil, cl), obs) == "" {
 								run.Count("observed_prefer_email_session_without_email_gets_no_username_"+sess.Source, 1) // accepted: "no value when the claim is empty"
 							}
 							continue
@@ -1069,7 +1145,7 @@ func c07Drive(run *vfRun, w *vfWorld, p *vfProxy, cfg *c07Cfg, inst int, session
 							}
 						}
 						switch {
-						case style == 8 && leak == "" && c07Judge(c07ExpectS(h, nil, cl), obs) == "" && len(obs) == 0:
+						case style >= 8 && leak == "" && c07Judge(c07ExpectS(h, nil, cl), obs) == "" && len(obs) == 0:
 							sig, what = "c07:connection-header-drops-injected-header", "the client listed the name in its Connection header and the injected value is dropped before the upstream"
 						case leak != "" && cfg.Kind == "legacy" && cfg.PreferEmail && h.Optional && strings.EqualFold(h.Name, "X-Forwarded-Email"):
 							sig, what = "c07:prefer-email:x-forwarded-email-not-stripped", "client-supplied value reaches the upstream (--prefer-email-to-user leaves X-Forwarded-Email unmanaged)"
@@ -1487,7 +1563,7 @@ func TestVerif_C07(t *testing.T) {
 		"(claim/prefix/basicAuthPassword/secret value|file|env, every claim incl. created_at/expires_on, preserve on/off, strip-only entries, non-canonical names, several values per header); " +
 		"sessions: 8 cookie-login identities (fields empty/multi/Unicode/separators; quick: the standard one + a rotating 3) + up to 3 cookie identities and 1 bearer JWT whose user/e-mail/groups/preferred_username equal, start with (once, twice) or contain the prefixes THIS configuration uses, 3 bearer JWTs, htpasswd Basic + sign-in form (16/32 instances, those injecting time claims first), none, invalid cookie; " +
 		"endpoints: proxied (methods rotate), bypassed (--skip-auth-route), /oauth2/auth (202/401), /oauth2/auth?allowed_groups=... (403); " +
-		"9 client header styles over the wire (canonical/lower/UPPER/mIxEd, x1-x3, comma-joined, case mix, as-configured + '_' look-alike, names listed in Connection). " +
+		"11 client header styles over the wire (canonical/lower/UPPER/mIxEd, x1-x3, comma-joined, case mix, as-configured + '_' look-alike, names listed in Connection on one line, on 2-3 Connection lines at every position, in Keep-Alive/Proxy-Connection/TE/Trailer/Upgrade; the hop-by-hop styles also over the direct driver); identities without user-id claim (session.User empty, e-mail set). " +
 		"concurrent phase: 3 configurations with Basic-auth / prefix / plain / multi-valued injection x 10 users of different name lengths (8 cookie, 2 bearer) hammering the same instance simultaneously (300/1500 requests each), every request judged against its OWN session; race-detector reports in the injector are violations. " +
 		"cell = (option bucket, session source/class, endpoint, spoof style); non-trivial = at least one header configured")
 	run.Assume("header names configured only for responses, names not configured at all and look-alikes with '_' are counted, not judged",
@@ -1568,6 +1644,10 @@ func TestVerif_C07(t *testing.T) {
 		run.Inconclusive("too few judged header names")
 		run.Count("too_few_names", 1)
 		fmt.Printf("INCONCLUSIVE property=C07 reason=too few header names judged %v\n", []int64{run.Counter("judged_request_names"), run.Counter("judged_response_names"), run.Counter("judged_preserved_names")})
+		t.Fail()
+	}
+	if run.Counter("sessions_without_user") < int64(run.Env.Pick(60, 400)) || run.Counter("hop_by_hop_requests_wire") < int64(run.Env.Pick(800, 20000)) || run.Counter("hop_by_hop_requests_direct") < int64(run.Env.Pick(800, 20000)) {
+		fmt.Printf("INCONCLUSIVE property=C07 reason=too few sessions without user (%d) or hop-by-hop requests (wire %d, direct %d)\n", run.Counter("sessions_without_user"), run.Counter("hop_by_hop_requests_wire"), run.Counter("hop_by_hop_requests_direct"))
 		t.Fail()
 	}
 	if run.Counter("sessions_correlated_with_prefix") < int64(run.Env.Pick(30, 150)) {
